@@ -1561,6 +1561,36 @@ def cache_policy(repo, tier):
     return {"obligations": [ob]}
 
 
+def frame_policy(repo, tier):
+    """Re-entrancy of the drivers ("for every key and block" quantifies over calls, also over calls that are in progress at the
+    same time): no function reachable from a driver / a CryptAES method writes an object that outlives the call (module-level
+    scratch state, closure variables, mutable defaults, function attributes, the cached round keys) -- contracts/c20_frame.py.
+    Keyed caches written by the round-key provider are governed by the cache-invariant obligations.  Decided by code shape:
+    a site found is `unknown`, the replayer's `concurrent` scope decides."""
+    from pyvc.flow import ground_obligation
+    from contracts import c20_frame as FR
+    mod = loader.module(AES, repo)
+    A = FR.Analysis(mod)
+    roles = roles_of(repo)
+    owner = roles.get("_get_round_keys", (None,))[0]
+    obls = []
+    for role in DRIVERS:
+        q = roles.get(role, (None,))[0]
+        if q is None or q not in A.fns:
+            continue
+        sites = A.persistent_writes(q, owner)
+        obls.append(ground_obligation(f"C20/_pypdf_aes_fallback.py::{role}/policy#keeps-no-working-state-across-calls", not sites,
+                                      "writes to objects that outlive the call: " + "; ".join(sites[:4]), AES, kind="policy", definite=False))
+    nested = [q for q in A.fns if ".<locals>." in q]
+    sites = []
+    for q in nested:
+        sites += [x for x in A.persistent_writes(q, owner, constructor=q.endswith("init") or q.endswith("init__")) if x not in sites]
+    if nested:
+        obls.append(ground_obligation("C20/_pypdf_aes_fallback.py::CryptAES/policy#keeps-no-working-state-across-calls", not sites,
+                                      "writes to objects that outlive the call: " + "; ".join(sites[:4]), AES, kind="policy", definite=False))
+    return {"obligations": obls}
+
+
 def _guarded(fn, subject):
     """an exception inside an EXTRA analysis on changed input is a shape this pack does not understand: `unknown` (native replay)"""
     def run(repo, tier):
@@ -1575,7 +1605,7 @@ def _guarded(fn, subject):
 
 
 EXTRA = [_guarded(table_checks, "tables"), _guarded(install_site, "patch_pypdf_fallback_aes"), _guarded(cache_policy, "_ROUND_KEY_CACHE"),
-         _guarded(chunks_iteration, "_chunks")]
+         _guarded(chunks_iteration, "_chunks"), _guarded(frame_policy, "drivers")]
 LOCK_OPTIONAL_KINDS = ("slice-store-in-range", "call-pre")       # exist only while the code has that store / call form
 REPLAY_UNKNOWN = True
 from contracts.c20_modes import C20Executor as EXECUTOR  # noqa: E402
